@@ -15,7 +15,7 @@ ASSUMPTIONS = A_COMMON + [
     "only through the bounded harness; their contracts live in the checks of C05/C06/C09",
 ]
 EXPLANATION = "write-site frame obligations: in mutate_attr / with_<attr> / reset_<attr> / reset / __deepcopy__ every heap write targets an object allocated during the call unless _inplace (or a do_not_copy class); 'receiver unchanged' is a postcondition on normal and exceptional exits; callee effects by contract"
-SUBCHECKS = [("props._copy_protect", ["ProtectBody"]), ("props._c06_for_c01", __import__("props.c06", fromlist=["TARGETS"]).TARGETS)]
+SUBCHECKS = [("props._copy_protect", ["ProtectBody"]), ("props._c06_for_c01", __import__("props.c06", fromlist=["TARGETS"]).TARGETS), ("props._c06_prepare", __import__("props._c06_prepare", fromlist=["TARGETS"]).TARGETS)]
 FINDINGS = []
 
 
